@@ -20,6 +20,18 @@ int main(int argc, char **argv) {
     if (!out.empty()) { printf("REPLAY-FAIL: D1 not early: a handler was collected %lld us BEFORE its deadline (due test is not tp <= now on the clock's resolution)\n", early); fflush(stdout); _exit(1); }
     printf("REPLAY-OK: nothing collected before the deadline\n"); fflush(stdout); _exit(0);
   }
+  if (in.count("MODE") && in["MODE"] == "stop_after_timeout") {
+    // ST3: stop() whose internal drain(5000) times out (a handler runs 5.6 s) - afterwards the service reports Stopped; scheduling must be refused.
+    static TimerService s3; static std::atomic<bool> started{false}; static std::atomic<int> ran{0};
+    s3.scheduleAfter(std::chrono::milliseconds(1), [] { started = true; std::this_thread::sleep_for(std::chrono::milliseconds(5600)); });
+    while (!started) std::this_thread::sleep_for(std::chrono::milliseconds(1));
+    auto r = s3.stop();
+    auto id = s3.scheduleAfter(std::chrono::milliseconds(10), [] { ran++; });
+    std::this_thread::sleep_for(std::chrono::milliseconds(300));
+    printf("stop() with a 5.6 s handler in flight: success=%d state=%d; then scheduleAfter(10 ms) -> id %llu, handler ran %d times within 300 ms\n", (int)r.success, (int)r.newState, (unsigned long long)id, ran.load()); fflush(stdout);
+    if (id != 0 && ran.load() == 0) { printf("REPLAY-FAIL: ST3: a timer was ACCEPTED by a stopped service (id %llu) and is lost - stop() left _accepting set by the timed-out drain()\n", (unsigned long long)id); fflush(stdout); _exit(1); }
+    printf("REPLAY-OK: refused\n"); fflush(stdout); _exit(0);
+  }
   long long INTERVAL = replay_io::i64(in["INTERVAL"]);
   static TimerService svc;
   static std::atomic<int> runs{0};
